@@ -358,6 +358,10 @@ class _Context:
                 and name.parent.children[1] == '=':
             # The name of a keyword argument is not a variable.
             return
+        if parent_type == 'dotted_name' and name is not name.parent.children[0]:
+            # Only the first name of a dotted name (e.g. in the decorators of
+            # older grammars) can be a variable.
+            return
         if parent_type == 'namedexpr_test' and name is name.parent.children[0]:
             # Comprehensions bind those in the enclosing scope.
             if _is_in_lambda_body(name):
